@@ -46,6 +46,29 @@ func (p *Program) Source() string {
 	return b.String()
 }
 
+// SourceNoMain renders the declarations as one file of package main without a main function
+// (the parts of a package that is spread over several files).
+func (p *Program) SourceNoMain() string {
+	var b strings.Builder
+	body := strings.Join(p.Decls, "\n\n") + "\n"
+	b.WriteString("package main\n\n")
+	var imps []string
+	for _, pkg := range []string{"errors", "fmt", "os", "path/filepath", "runtime", "sort", "strconv", "strings"} {
+		if strings.Contains(body, pkg[strings.LastIndex(pkg, "/")+1:]+".") {
+			imps = append(imps, pkg)
+		}
+	}
+	if len(imps) > 0 {
+		b.WriteString("import (\n")
+		for _, i := range imps {
+			fmt.Fprintf(&b, "\t%q\n", i)
+		}
+		b.WriteString(")\n\n")
+	}
+	b.WriteString(body)
+	return b.String()
+}
+
 func indent(s string, n int) string {
 	pre := strings.Repeat("\t", n)
 	lines := strings.Split(s, "\n")
@@ -1307,6 +1330,22 @@ func (g *gen) switchStmt(sc *scope, d int) string {
 			if g.chance(25, "multi") {
 				vals += fmt.Sprintf(", %d", -c-1)
 			}
+			// clause bodies: statements, nothing at all, a lone break, a lone fallthrough
+			switch bk := g.intn(10, "bodykind"); {
+			case bk == 0:
+				g.f("switch-empty-clause")
+				fmt.Fprintf(&b, "case %s:\n", vals)
+				continue
+			case bk == 1:
+				g.f("switch-break-only-clause")
+				fmt.Fprintf(&b, "case %s:\n\tbreak\n", vals)
+				continue
+			case bk == 2 && c < 3:
+				g.f("switch-fallthrough-only-clause")
+				fmt.Fprintf(&b, "case %s:\n\tfallthrough\n", vals)
+				fmt.Fprintf(&b, "case %d:\n%s\n", 10+c, indent(g.printStmt(inner, g.tag()), 1))
+				continue
+			}
 			fmt.Fprintf(&b, "case %s:\n%s\n", vals, indent(g.block(inner, 1+g.intn(2, "cn"), d-1), 1))
 			if g.chance(25, "fallthrough") && c < 3 {
 				b.WriteString("\tfallthrough\n")
@@ -1324,9 +1363,21 @@ func (g *gen) switchStmt(sc *scope, d int) string {
 	b.WriteString("switch {\n")
 	n := 1 + g.intn(3, "ncase")
 	for i := 0; i < n; i++ {
+		switch bk := g.intn(10, "tbodykind"); {
+		case bk == 0:
+			g.f("switch-empty-clause")
+			fmt.Fprintf(&b, "case %s:\n", g.expr(sc, tBool, 2))
+			continue
+		case bk == 1:
+			g.f("switch-fallthrough-only-clause")
+			fmt.Fprintf(&b, "case %s:\n\tfallthrough\n", g.expr(sc, tBool, 2))
+			continue // the next clause (or default) follows
+		}
 		fmt.Fprintf(&b, "case %s:\n%s\n", g.expr(sc, tBool, 2), indent(g.block(sc, 1, d-1), 1))
 		if g.chance(20, "brkcase") {
 			b.WriteString("\tbreak\n")
+		} else if g.chance(15, "tfallthrough") {
+			b.WriteString("\tfallthrough\n")
 		}
 	}
 	fmt.Fprintf(&b, "default:\n%s\n}", indent(g.printStmt(sc, g.tag()), 1))
